@@ -313,6 +313,24 @@ def establishKeys (P : Prims) (version : Nat) (row : Nat × Nat × Nat × Nat ×
     (masterSecret clientRandom serverRandom : Bytes) : Res Keys :=
   keysFromMasterSecret P version row.2.2.2.2 masterSecret clientRandom serverRandom row.2.1 row.2.2.1 row.2.2.2.1
 
+/-- one row of a TLS ≤ 1.2 suite table as far as key derivation reads it: (id, macLen, keyLen, ivLen, flags) -/
+abbrev SuiteRow := Nat × Nat × Nat × Nat × Nat
+
+/-- `cipherSuiteByID`: the FIRST row of `implementedCipherSuites` with that id (the table lists some ids twice) -/
+def cipherSuiteByID (table : List SuiteRow) (id : Nat) : Option SuiteRow :=
+  table.find? (fun r => r.1 == id)
+
+/-- `mutualCipherSuite(have, want)`: `cipherSuiteByID(want)` if `want` is among `have`, else nil -/
+def mutualCipherSuite (table : List SuiteRow) (have_ : List Nat) (want : Nat) : Option SuiteRow :=
+  if have_.contains want then cipherSuiteByID table want else none
+
+/-- `suite.flags&suiteSHA384 != 0` -/
+def rowSHA384 (bit : Nat) (r : SuiteRow) : Bool := r.2.2.2.2 &&& bit != 0
+
+/-- the part of a row `establishKeys` / `prfAndHashForVersion` read -/
+def rowKeyShape (bit : Nat) (r : SuiteRow) : Nat × Nat × Nat × Nat × Bool :=
+  (r.1, r.2.1, r.2.2.1, r.2.2.2.1, rowSHA384 bit r)
+
 def derivedLabel : Bytes := (ascii "derived")
 def resumptionPskLabel : Bytes := (ascii "resumption")
 def resumptionBinderLabel : Bytes := (ascii "res binder")
